@@ -907,6 +907,16 @@ func (d *repDomain) addConstsOf(fn *ssa.Function) {
 // about something else.
 func repEvalCond(cond ssa.Value, v ssa.Value, r int64) (val, ok bool) {
 	cv, neg := stripNot(cond)
+	if call, isCall := cv.(*ssa.Call); isCall {
+		// a one-argument classification function applied to the value (isdigit(b), unicode.IsControl(r)):
+		// interpreted, standard library included, when its body is loop-free table or range tests
+		if cal := call.Call.StaticCallee(); cal != nil && len(call.Call.Args) == 1 && call.Call.Args[0] == v && len(cal.Blocks) > 0 {
+			if res, ok := evalByteFunc(cal, r); ok {
+				return (res != 0) != neg, true
+			}
+		}
+		return false, false
+	}
 	b, isb := cv.(*ssa.BinOp)
 	if !isb {
 		return false, false
@@ -947,34 +957,86 @@ func repEvalCond(cond ssa.Value, v ssa.Value, r int64) (val, ok bool) {
 // reachWith: can control get from block `from` to block `to` when v = r (branches on comparisons of v
 // with constants are decided, all others may go either way)?
 func repReach(from, to *ssa.BasicBlock, v ssa.Value, r int64) bool {
-	seen := map[*ssa.BasicBlock]bool{}
-	var dfs func(b *ssa.BasicBlock) bool
-	dfs = func(b *ssa.BasicBlock) bool {
+	return reachUnder(from, to, func(cond ssa.Value) (bool, bool) { return repEvalCond(cond, v, r) })
+}
+
+// reachUnder is the path search shared by the representative-value analyses: branches whose condition
+// eval can decide are followed on the decided side only, all others both ways; boolean phis (the value
+// form of && and ||, as in `case a || b:`) are evaluated along the path from the edge taken.
+func reachUnder(from, to *ssa.BasicBlock, eval func(cond ssa.Value) (bool, bool)) bool {
+	type edge struct{ b, prev *ssa.BasicBlock }
+	seen := map[edge]bool{}
+	var dfs func(b, prev *ssa.BasicBlock, vals map[ssa.Value]bool) bool
+	dfs = func(b, prev *ssa.BasicBlock, vals map[ssa.Value]bool) bool {
 		if b == to {
 			return true
 		}
-		if seen[b] {
+		if seen[edge{b, prev}] {
 			return false
 		}
-		seen[b] = true
+		seen[edge{b, prev}] = true
+		nv := vals
+		copied := false
+		for _, in := range b.Instrs {
+			phi, ok := in.(*ssa.Phi)
+			if !ok {
+				break
+			}
+			if bt, ok := phi.Type().Underlying().(*types.Basic); !ok || bt.Kind() != types.Bool {
+				continue
+			}
+			for i, p := range b.Preds {
+				if p != prev {
+					continue
+				}
+				e := phi.Edges[i]
+				var val, known bool
+				if k, ok := e.(*ssa.Const); ok && k.Value != nil {
+					val, known = k.Value.String() == "true", true
+				} else if pv, ok := vals[e]; ok {
+					val, known = pv, true
+				} else {
+					val, known = eval(e)
+				}
+				if !copied {
+					nv = map[ssa.Value]bool{}
+					for k2, v2 := range vals {
+						nv[k2] = v2
+					}
+					copied = true
+				}
+				if known {
+					nv[phi] = val
+				} else {
+					delete(nv, phi)
+				}
+			}
+		}
 		if len(b.Instrs) > 0 {
 			if ifi, ok := b.Instrs[len(b.Instrs)-1].(*ssa.If); ok {
-				if val, ok := repEvalCond(ifi.Cond, v, r); ok {
+				cv, neg := stripNot(ifi.Cond)
+				val, ok := nv[cv]
+				if ok {
+					val = val != neg
+				} else {
+					val, ok = eval(ifi.Cond)
+				}
+				if ok {
 					if val {
-						return dfs(b.Succs[0])
+						return dfs(b.Succs[0], b, nv)
 					}
-					return dfs(b.Succs[1])
+					return dfs(b.Succs[1], b, nv)
 				}
 			}
 		}
 		for _, s := range b.Succs {
-			if dfs(s) {
+			if dfs(s, b, nv) {
 				return true
 			}
 		}
 		return false
 	}
-	return dfs(from)
+	return dfs(from, nil, map[ssa.Value]bool{})
 }
 
 // valueSetAt: the representatives v can equal when control is at block `at` (an over-approximation;
@@ -2584,80 +2646,7 @@ func floatRepEval(cond ssa.Value, v ssa.Value, r float64) (val, ok bool) {
 }
 
 func floatRepReach(from, to *ssa.BasicBlock, v ssa.Value, r float64) bool {
-	type edge struct{ b, prev *ssa.BasicBlock }
-	seen := map[edge]bool{}
-	var dfs func(b, prev *ssa.BasicBlock, vals map[ssa.Value]bool) bool
-	dfs = func(b, prev *ssa.BasicBlock, vals map[ssa.Value]bool) bool {
-		if b == to {
-			return true
-		}
-		if seen[edge{b, prev}] {
-			return false
-		}
-		seen[edge{b, prev}] = true
-		// boolean phis (the value form of && and ||): decided by the edge we came in on
-		nv := vals
-		copied := false
-		for _, in := range b.Instrs {
-			phi, ok := in.(*ssa.Phi)
-			if !ok {
-				break
-			}
-			if bt, ok := phi.Type().Underlying().(*types.Basic); !ok || bt.Kind() != types.Bool {
-				continue
-			}
-			for i, p := range b.Preds {
-				if p != prev {
-					continue
-				}
-				e := phi.Edges[i]
-				var val, known bool
-				if k, ok := e.(*ssa.Const); ok && k.Value != nil {
-					val, known = k.Value.String() == "true", true
-				} else if pv, ok := vals[e]; ok {
-					val, known = pv, true
-				} else {
-					val, known = floatRepEval(e, v, r)
-				}
-				if !copied {
-					nv = map[ssa.Value]bool{}
-					for k2, v2 := range vals {
-						nv[k2] = v2
-					}
-					copied = true
-				}
-				if known {
-					nv[phi] = val
-				} else {
-					delete(nv, phi)
-				}
-			}
-		}
-		if len(b.Instrs) > 0 {
-			if ifi, ok := b.Instrs[len(b.Instrs)-1].(*ssa.If); ok {
-				cv, neg := stripNot(ifi.Cond)
-				val, ok := nv[cv]
-				if ok {
-					val = val != neg
-				} else {
-					val, ok = floatRepEval(ifi.Cond, v, r)
-				}
-				if ok {
-					if val {
-						return dfs(b.Succs[0], b, nv)
-					}
-					return dfs(b.Succs[1], b, nv)
-				}
-			}
-		}
-		for _, s := range b.Succs {
-			if dfs(s, b, nv) {
-				return true
-			}
-		}
-		return false
-	}
-	return dfs(from, nil, map[ssa.Value]bool{})
+	return reachUnder(from, to, func(cond ssa.Value) (bool, bool) { return floatRepEval(cond, v, r) })
 }
 
 func ruleN14(c *Ctx) {
